@@ -14,7 +14,9 @@ CLAIMED = {
             "Tokenizer.tla is a character-level scanner model whose Level-A invariants (Total, Lossless, NoQuotedSplit) TLC "
             "checks for every input up to the bound; every enumerated input is replayed into the real tokenizer and must "
             "coincide with the model or be accepted by the property-level judge Trace_Tokenizer, which also validates every "
-            "formula the reader emits from the fixtures and seeded random/mutated strings.",
+            "formula the reader emits from the fixtures and seeded random/mutated strings. Reference texts the library itself renders for "
+            "generated documents (table/sheet-qualified names, header labels incl. ones that need quoting) must be accepted; a quoted name may "
+            "follow a scope or the colon of a span inside an operand (modelled in the scanner).",
             "class alphabet with representatives; Python re semantics of the two string regexes as characterised in the spec; TLC/SANY",
             "DESIGN.md §4 C18"),
 }
@@ -36,7 +38,7 @@ CLAIMED["C03"] = (
     "histories from TLC's state dump and -simulate behaviours (2 documents, 2 sheets, tables to 5x5, tile-boundary profiles) are "
     "replayed into the library and compared after every op; long random histories from a spec-independent driver (typed all-distinct "
     "values, 25x25 tables, save/reopen) and the same driver on LOADED documents (every shipped fixture the library writes back unchanged, "
-    "pivot-table documents excepted as the library itself warns) are validated event by event by TLC.",
+    "pivot-table documents excepted as the library itself warns) are validated event by event by TLC. Deletions whose count reaches past the end of the table are refusals in the model and are attempted by the random drivers.",
     "TLC/SANY; the projection (rows(), num_rows/num_cols, Cell.row/col, names) and the concretisation of value tokens; ops outside "
     "the documented domain are not generated",
     "DESIGN.md §4 C03")
@@ -49,7 +51,7 @@ CLAIMED["C11"] = (
     "checks the code-shaped bound handling against that definition over every bound combination and that the A1 text of a position "
     "parses back to it. All bounded histories with row/column arguments from -1 to limit+1 are replayed twice (RC and A1 text incl. 'A0'), "
     "must coincide event by event, and each recorded trace incl. ~100-1300 read-only probes is validated by TLC; concrete limit rows/columns "
-    "(MAX-1, MAX, MAX+1) are validated with the real limits as spec constants.",
+    "(MAX-1, MAX, MAX+1) are validated with the real limits as spec constants. Each history runs in three notations: row/column numbers, 'B2', and lower case or every '$' placement (a lower-case spelling may be refused without effect or read like the upper-case one).",
     "TLC/SANY; abstract limits 4 are mapped to MAX_ROW_COUNT/MAX_COL_COUNT; lower-case A1 not judged; the local effect of a touch (style "
     "name, border, formatted value at the addressed cell, no other cell changed) is observed by the driver and judged as a logged field",
     "DESIGN.md §4 C11")
@@ -60,7 +62,7 @@ CLAIMED["C19"] = (
     "first unused 'Table k', lookups by index/name/membership are functions of the state. TLC checks AddKeepsUnique and AutoNameFresh on all "
     "histories to the bound; every maximal bounded history (and -simulate histories up to 6x6) is replayed into the library and after every call "
     "every index in [-2n,2n] and every name token (case variants, generated-looking, empty, non-ASCII) is looked up in every collection; TLC "
-    "validates each recorded trace, including after save/reopen.",
+    "validates each recorded trace, including after save/reopen. The generator pool includes lower-case variants of generated names; histories 'variant then automatic name' are always in the quick sample.",
     "TLC/SANY; name tokens instantiated with fixed concrete strings; Python str.lower() as the meaning of 'ignoring case'",
     "DESIGN.md §4 C19")
 CLAIMED["C12"] = (
@@ -72,7 +74,7 @@ CLAIMED["C12"] = (
     "non-cutting edits only move rectangles. All maximal behaviours (merge single/list, writes, row/column insertion/deletion before, inside, "
     "after, save, reopen) plus edge placements on 5x6..12x9, 1xN, Nx1 tables and every fixture table with merges are recorded from the real "
     "library and validated by TLC: exact picture after merge/write/save/reopen, picture of the reopened file equal to the open one at every "
-    "save, self-consistency after structural edits.",
+    "save, self-consistency after structural edits. add_row/add_column carry a default value in the model; whole-rectangle deletions, insertions/deletions at the edges of rectangles, sibling tables added after a save (they must start without merges) and structural edits on fixture tables whose merges came with the document are replayed.",
     "TLC/SANY; writing into a placeholder and overlapping merges are not generated; where rectangles move is Level B (DRIFT); edits cutting "
     "through a rectangle are a recorded known finding (F8b)",
     "DESIGN.md §4 C12")
@@ -84,7 +86,7 @@ CLAIMED["C16"] = (
     "back) violate it. Every bounded behaviour of the mechanism spec is replayed on a real table, random subsets of the 11 setters (with borders, "
     "queried or not, 1-3 cycles) are run on new documents, and every readable fixture is saved unqueried and with setter subsets; at each save "
     "the trace records what the open document reports and what the reopened file reports, and TLC checks that the expected observation "
-    "(source values + what was set) survives every cycle component by component.",
+    "(source values + what was set) survives every cycle component by component. Geometry.tla works in half points with edges between adjacent lines (a border widens both neighbours, drawn from either side); three-table documents with a watched bystander table; documents whose header lists skip default-sized lines.",
     "TLC/SANY; 'what the document reported before saving' is observed right after the save (saving does not change the open document: C03); "
     "a caption text setter may switch the caption on (not fixed by C16); structural edits are not mixed in",
     "DESIGN.md §4 C16")
@@ -96,7 +98,7 @@ CLAIMED["C04"] = (
     "order and the decoder's offset walk; TLC checks DecodeSlots/EncodeLayout/EncodeComplete for every kind x 2^12 subsets and every enumerated "
     "flag word and refutes the pinned tree's variants (SkipLate, RichTwice). Each TLC state is one implementation test: records are parsed slot "
     "by slot with the spec's offsets, decoded again and compared attribute by attribute; each flag word is materialised with sentinels by the "
-    "harness's own encoder and decoded by the library; every distinct cell record of the fixtures is re-read by TLC at the layout's offsets.",
+    "harness's own encoder and decoded by the library; every distinct cell record of the fixtures is re-read by TLC at the layout's offsets. In every fifth case one of the fields present holds the id 0.",
     "TLC/SANY; stub model for string/style/rich-text lookups; payload values sampled from C01's domains; quick tier enumerates flag bits 0..14 "
     "(2^15 words), thorough all 2^21",
     "DESIGN.md §4 C04")
@@ -109,7 +111,7 @@ CLAIMED["C01"] = (
     "checked on all values of <= 3-4 digits, and its lossy-scaling mutant is refuted. Sweeps write 3*10^4 (quick) / 4*10^5 (thorough) values of "
     "every class into tables of 1, 8, 40 and 300 columns spanning several 256-row tiles, save, reopen and log one event per cell incl. the stored "
     "decimal128 payload (Level B). The growth/position clause is covered by Workbook behaviours (writes outside the bounds, save, open) replayed "
-    "with row/column offsets 254/255/510/598 and 254/255/258/300, and by single writes at MAX_ROW_COUNT-1 / MAX_COL_COUNT-1 (thorough).",
+    "with row/column offsets 254/255/510/598 and 254/255/258/300, and by single writes at MAX_ROW_COUNT-1 / MAX_COL_COUNT-1 (thorough). Lifecycle variety: one third of the files are saved twice by the same Document with writes in between, one third are opened, edited and saved again.",
     "TLC/SANY; repr(float) shortest round-trip digits, Decimal, int.from_bytes are trusted for turning floats and payload bytes into digit "
     "sequences; long texts compared by length + SHA-256",
     "DESIGN.md §4 C01")
@@ -122,7 +124,7 @@ CLAIMED["C05"] = (
     "LenField2Bytes / Boundary variants. Synthetic archives (0 bytes, 64 KiB multiples -1/0/+1, many segments, multi-message segments, unknown "
     "fields) are framed at TLC's compositions scaled to real sizes with cut points perturbed by one byte, compressed / stored / mixed, and must "
     "decode to the original segments; ~1300 (quick) / ~5300 (thorough) real members are decoded and re-encoded and TLC judges stream identity "
-    "by digests of exact bytes, every chunk record, data completeness and header lengths.",
+    "by digests of exact bytes, every chunk record, data completeness and header lengths. IWAMessages.tla adds the decoder's choice of message class (regular messages of two classes, patch messages with every legal base index): all 202 segment shapes are built from two real classes whose payloads change under the other class. Readers are exercised with chunks beyond 64 KiB (single-chunk members, incompressible payloads, streams whose length is an exact multiple of 64 KiB).",
     "TLC/SANY; snappy and protobuf observed only through lengths and SHA-256 digests; stored chunks whose raw bytes are themselves valid "
     "snappy are not generated (ambiguous by the format's own 'try to uncompress' rule)",
     "DESIGN.md §4 C05")
@@ -147,7 +149,7 @@ CLAIMED["C06"] = (
     "refuted; every list / store state is written into a real document's archives and read back through Table.cell. The metamorphic "
     "relation: eleven rewrites (list permutation, re-chunking, zip order, compression method, package vs single file, narrow/wide offsets, "
     "header records for empty rows) singly and in compositions of 2-3 on every readable fixture, the template and API-built documents; "
-    "the rewritten copy's observation (C02's) must equal the original's by sheet/table name and component.",
+    "the rewritten copy's observation (C02's) must equal the original's by sheet/table name and component. Row records without cells (RowMap.tla recorded set), one-chunk members and a bulky document whose compressed chunks exceed 64 KiB are part of the rewrites.",
     "TLC/SANY; the rewriter (validated by its own reader: same object ids before/after); tile size 2 of the model is scaled to 256; "
     "silent-fallback wrappers of DESIGN.md are not installed (the observation itself shows a fallback as a changed value)",
     "DESIGN.md §4 C06")
@@ -175,7 +177,7 @@ CLAIMED["C08"] = (
     "(thorough) distinct programs over every operator (members of each precedence class substituted), unary minus, percent, lists, calls of "
     "arity 0..3 with empty arguments, 1-D/2-D arrays and number/string/boolean/date/reference leaves are injected into real tables in batches, "
     "saved and reopened; the text is read twice (determinism), tokenised and parsed by the harness's projection (same grammar as the spec's "
-    "Parse) and compared with the stored tree, then literal by literal (numbers as decimals, strings with quotes undoubled, dates, references).",
+    "Parse) and compared with the stored tree, then literal by literal (numbers as decimals, strings with quotes undoubled, dates, references). Date literals on calendar boundaries; every second program with a reference is shared with the neighbouring cell of its row (same stored key, other host cell) and read in both orders.",
     "TLC/SANY; the projection parser (validated on the spec's own renderings); leaf values and function ids sampled from seeded pools; "
     "fixture formulas with named ranges / cross-table references are outside the projection's grammar and only counted",
     "DESIGN.md §4 C08")
@@ -189,7 +191,7 @@ CLAIMED["C17"] = (
     "fault set (11 container faults, 12 member faults at the first/middle/last member, also inside a nested Index.zip) is written into real files "
     "with the harness's zip/IWA code and opened with ObjectStore(path); random truncation lengths and 1-4 bit flips in member data, local headers "
     "and the central directory are added per document. Level A: no foreign exception class escapes from loading; which library class is raised is "
-    "Level B (DRIFT).",
+    "Level B (DRIFT). Fault kinds include three ways a Properties.plist can fail to state a version, a segment header without messages, trailing bytes after the last chunk and a damaged Index.zip nested in a single-file document.",
     "TLC/SANY; 'loading' = ObjectStore(path); failures while later interpreting a container whose archives were dropped are noted, not judged",
     "DESIGN.md §4 C17")
 CLAIMED["C20"] = (
@@ -202,7 +204,7 @@ CLAIMED["C20"] = (
     "grids (and tilings to 1..40 x 1..12) are concretised with seeded spellings (delimiters, quotes, CR/LF, non-ASCII, thousands commas, "
     "exponents, signs, underscores, non-ASCII digits, nan/inf/1e400), run through both command-line entry points in-process with "
     "stdout/stderr/exit status captured, and TLC judges shape, text identity code point by code point, numeric equality on digit sequences "
-    "and 'ok or one-line error, never a crash'.",
+    "and 'ok or one-line error, never a crash'. Minimal shapes (header-only, one data row, one column) in every option combination; numeric spellings from 1e-31 to 1e23.",
     "TLC/SANY; Python's csv module (excel dialect) as reference reader/writer; cells classified by the documented conversion; numeric spellings "
     "of at most 15 significant digits; duplicate header names are a recorded known finding (F17b)",
     "DESIGN.md §4 C20")
@@ -218,7 +220,7 @@ CLAIMED["C14"] = (
     "directive events (24 hours, 60 minutes/seconds, all 731 days of 2023-2024, boundary years), compositions with literals, quoted text and "
     "escaped quotes, and the public route are judged by out in RenderSet(fmt, fields). Durations (unit boundaries +-1 ms up to 10 years x 21 "
     "unit pairs x 3 styles + automatic units) are read unit by unit and must recombine, in <<days, ms>> limbs, to the duration truncated to the "
-    "smallest unit shown.",
+    "smallest unit shown. Cases are spread over three tables of one document in half of the jobs; the epoch date (stored number 0) and re-formatting after a read are included.",
     "TLC/SANY; C-locale English month/day names; the harness splits a duration text into numbers and unit words, TLC does the reading; "
     "compact automatic durations are accepted if some contiguous unit range reads back exactly",
     "DESIGN.md §4 C14")
@@ -232,7 +234,7 @@ CLAIMED["C13"] = (
     "tie; the number of decimals shown must be the number asked for. TLC checks Read(Show(v)) against RoundAt for all values of <= 3 digits x "
     "exponents x places x separator and refutes Truncate / CommaInDecimals. 3*10^4 (quick) / 5*10^5 (thorough) events over C01's numeric domain, "
     "exact ties, powers of ten and neighbours x places 0..10/auto x separator x four negative styles x accounting x all supported currencies x "
-    "bases 2..36 x 0..8 places x two's complement x nine fraction accuracies x ratings are judged.",
+    "bases 2..36 x 0..8 places x two's complement x nine fraction accuracies x ratings are judged. Cases are spread over three tables of one document (added table, added sheet) in half of the jobs, and every seventh cell is given another format and read before its final format.",
     "TLC/SANY; the value is its shortest round-trip decimal; red negative style carries no sign in text (magnitude only); n-digit fraction "
     "accuracies: closeness computed by the harness with Fraction and passed as a flag; automatic decimals may be spelled with an exponent",
     "DESIGN.md §4 C13")
@@ -247,7 +249,7 @@ CLAIMED["C15"] = (
     "FirstRunWins. Styles.tla: SavedIsShown, ReadIsReadOnly, UnstyledKeep, fresh automatic names; ReadMarksDirty (the pinned tree) refuted. Stroke "
     "histories run on horizontal and vertical lines (outer edge and inner lines, next to a merged rectangle), addressed from either adjacent "
     "cell, with widths/colours/patterns drawn per run; style histories use complete 15-attribute sets over the documented domains (188 font "
-    "families, quarter-point sizes and indents, RGB, 5x3 alignments, wrap, background colour), applied by object, by name and through write().",
+    "families, quarter-point sizes and indents, RGB, 5x3 alignments, wrap, background colour), applied by object, by name and through write(). Border lines start empty or preloaded from a file (counter = latest order) with reopen between strokes, lie next to or on the outer edge of merged ranges; first strokes over existing borders of fixture tables. Style histories run with the second cell in the same table, an added table or a table on an added sheet; every two-styles-live history once per attribute with styles differing in that attribute only (incl. background images); directed 13-step histories with four styles around a save-reopen.",
     "TLC/SANY; tokens stand for concrete border / attribute-set values compared attribute by attribute; the named styles of a reopened document "
     "are re-read (an unused style keeps only what the file stores for it)",
     "DESIGN.md §4 C15")
